@@ -393,6 +393,52 @@ func (r *runner) seekCheck(at int, q *Q, stop int, cws []CW, viaDao bool, id int
 	return cmpLists(r.descQ(what, at, q), got, want)
 }
 
+// privateDaoSeek scans through a private DAO stacked on layer at; for every item the callback reads (through the
+// same DAO) an item of another contract and the found item itself, as a contract iterating its storage does.
+func (r *runner) privateDaoSeek(at int, q *Q, stop int, id int32) error {
+	fq := *q
+	fq.Prefix = append(daoKeyPrefix(r.c.DaoPfx, id), q.Prefix...)
+	r.noteQ(at, &fq)
+	view := r.m.view(at, fq.Depth)
+	want := rangeOf(view, &fq)
+	for i := range want {
+		want[i].k = want[i].k[len(fq.Prefix):]
+	}
+	if stop > 0 && len(want) > stop {
+		want = want[:stop]
+	}
+	gview := r.m.view(at, 0)
+	base := &dao.Simple{Version: dao.Version{StoragePrefix: storage.KeyPrefix(r.c.DaoPfx)}, Store: r.st[at]}
+	pd := base.GetPrivate()
+	r.sawDao = true
+	var got []kv
+	var nested error
+	rng := rngOf(q)
+	if rng.SearchDepth > 0 {
+		rng.SearchDepth++ // the private layer on top is one more layer to go through
+	}
+	pd.Seek(id, rng, func(k, v []byte) bool {
+		got = append(got, kv{string(k), bytes.Clone(v)})
+		for _, oid := range []int32{id, id - 3, id + 1} { // the last read leaves another contract's prefix in the DAO's key buffer
+			key := append(bytes.Clone(q.Prefix), k...)
+			if oid != id {
+				key = []byte{byte(len(got))}
+			}
+			g := pd.GetStorageItem(oid, key)
+			w, ok := gview[string(append(daoKeyPrefix(r.c.DaoPfx, oid), key...))]
+			if nested == nil && (ok != (g != nil) || ok && !bytes.Equal(g, w)) {
+				nested = fmt.Errorf("dao.GetStorageItem(%d,%x) from inside the scan = %x (nil=%v), want %x (present=%v)", oid, key, []byte(g), g == nil, w, ok)
+			}
+		}
+		return stop == 0 || len(got) < stop
+	})
+	r.tr("private dao.Seek(id=%d) at %d %s -> %s", id, at, fmtQ(q), fmtKVs(got))
+	if nested != nil {
+		return nested
+	}
+	return cmpLists(r.descQ(fmt.Sprintf("private dao.Seek(id=%d) with nested reads", id), at, q), got, want)
+}
+
 // flushLayer flushes layer i of the real stack and of the model. mode: 0 Persist, 1 PersistSync, 2 PersistPrivate.
 func (r *runner) flushLayer(i, mode int) error {
 	var err error
@@ -768,6 +814,9 @@ func (r *runner) exec(op *Op) error {
 		if r.inWindow {
 			q.Depth = 0
 			r.sawWindowQ = true
+		}
+		if op.Priv {
+			return r.privateDaoSeek(r.layerAt(op.At), &q, op.Stop, op.ID)
 		}
 		return r.seekCheck(r.layerAt(op.At), &q, op.Stop, op.CW, true, op.ID)
 	case "async", "dasync":
